@@ -40,9 +40,9 @@ pub fn eoi_at_tail_only(re: &Re, env: &Env) -> bool {
     }
 }
 
-/// `$` anywhere except under `*` / `+`, and at most once on any path through the regex. (A `$`
-/// need not be the last factor: `['a'-'z']+ ('\n' | $) ' '*` is an ordinary definition. What follows
-/// a `$` can only match the empty string, or nothing.)
+/// `$` anywhere except under `*` / `+`, and at most once on any path through the regex. NOT used by
+/// `check_wf` (the properties define well-formed rules as having `$` only at the tail); kept for
+/// exploration outside the properties' quantifier (gen.rs `p_eoi_mid`, 0 in every family).
 pub fn eoi_linear(re: &Re, env: &Env) -> bool {
     match re {
         Re::Eoi => true,
@@ -56,8 +56,9 @@ pub fn eoi_linear(re: &Re, env: &Env) -> bool {
     }
 }
 
-/// In a right context only acceptance matters, so `$` may repeat and may sit under `*` / `+`; a
-/// class difference still cannot contain it.
+/// Right contexts: C04 quantifies over "right contexts built from any regex operators" and states
+/// that "any regex may serve as a context", so `$` may repeat, sit under `*` / `+` or be followed by
+/// further factors there; a class difference still cannot contain it.
 pub fn eoi_ok_in_ctx(re: &Re, env: &Env) -> bool {
     match re {
         Re::Var(x) => env.get(x).map(|r| eoi_ok_in_ctx(r, env)).unwrap_or(true),
@@ -202,8 +203,9 @@ pub fn check_wf(spec: &Spec) -> Result<(), String> {
                     if nullable_chars(&r.re, &env) {
                         return Err(format!("rule {} matches the empty string", r.id));
                     }
-                    if !eoi_linear(&r.re, &env) {
-                        return Err(format!("rule {}: $ under a repetition or twice on a path", r.id));
+                    // the properties' own definition of well-formed (C01): `$` only at the tail of a rule
+                    if !eoi_at_tail_only(&r.re, &env) {
+                        return Err(format!("rule {}: $ not at tail", r.id));
                     }
                     if let Some(c) = &r.ctx {
                         check_re(c, &env, true)?;
